@@ -47,6 +47,7 @@ func init() {
 		Rules: []func(*Checker){ruleC10Walked, ruleC10Exits, ruleC10Links, aliasRuleFiltered(ruleC13Names, "C13.names", "C10.hash", 1, func(o Oblig) bool { return strings.Contains(o.Key, "directory name is a content hash") }), ruleC10Tmp, ruleC10Inside, ruleC03PruneAs("C10.ignored"), ruleC03BundleAs("C10.removed"), ruleBuilderAbsDir("C10.absdir"), ruleBundleWalkChain("C10.chain"),
 			aliasRule(ruleC03Parse, "C03.parse", "C10.parse", 3), aliasRule(ruleC03LastWins, "C03.lastwins", "C10.lastwins", 1), aliasRule(ruleC03Glob, "C03.glob", "C10.glob", 3), aliasRule(ruleC03MatchErr, "C03.matcherr", "C10.matcherr", 1), ruleMatchByRegexpOnly("C10.byregexp"),
 			// the package's own rule file is found the way Pack finds it: a link to a regular file inside the package is a rule file
+			ruleDefaultRulesOrder("C10.defaults"),
 			aliasRuleFiltered(ruleC03RuleFile, "C03.rulefile", "C10.rulefile", 1, func(o Oblig) bool { return strings.Contains(o.Key, "LoadPackageIgnoreRules") })},
 		NotDecided: []string{
 			"what filepath.EvalSymlinks resolves to; races with other processes modifying the temporary directory",
@@ -63,7 +64,7 @@ func init() {
 	})
 	register("C18", &propDef{
 		Title: "Bundle path lookups stay inside the bundle and invert each other",
-		Rules: []func(*Checker){ruleC18DirName, ruleC18Join, ruleC18Reverse, ruleRootSymmetric("C18.symmetric"), ruleCutFoundNotRefused("C18.pkgroot"), ruleDirNameAsWritten("C18.rawname"), ruleForwardPathLexical("C18.lexicalforward"), ruleForwardRefusesUnknownOnly("C18.forward"), ruleAbsOfTheGivenPath("C18.absarg")},
+		Rules: []func(*Checker){ruleC18DirName, ruleC18Join, ruleC18Reverse, ruleRootSymmetric("C18.symmetric"), ruleCutFoundNotRefused("C18.pkgroot"), ruleDirNameAsWritten("C18.rawname"), ruleForwardPathLexical("C18.lexicalforward"), ruleForwardRefusesUnknownOnly("C18.forward"), ruleAbsOfTheGivenPath("C18.absarg"), ruleNoRunTimeGlobals("C18.noglobals")},
 		NotDecided: []string{
 			"inversion as an equation on strings (forward then reverse lookup returning the same path)",
 		},
